@@ -94,6 +94,58 @@ vh_region_free(struct vh_region *r)
         mmap(r->lo, r->hi - r->lo, PROT_NONE, MAP_PRIVATE | MAP_ANONYMOUS | MAP_NORESERVE | MAP_FIXED, -1, 0);
 }
 
+/* pooled regions: reused between scenarios (still >= 1 MiB of inaccessible space around each) */
+#define VH_POOL 64
+static struct vh_region vh_pool[VH_POOL];
+static int vh_pool_used[VH_POOL], vh_pool_n;
+static struct vh_region
+vh_region_get(size_t cap)
+{
+        int i, best = -1;
+        size_t want = (cap + VH_PAGE - 1) / VH_PAGE * VH_PAGE;
+        if (want == 0)
+                want = VH_PAGE;
+        for (i = 0; i < vh_pool_n; i++)
+                if (!vh_pool_used[i] && (size_t) (vh_pool[i].hi - vh_pool[i].lo) >= want &&
+                    (best < 0 || vh_pool[i].hi - vh_pool[i].lo < vh_pool[best].hi - vh_pool[best].lo))
+                        best = i;
+        if (best < 0) {
+                if (vh_pool_n == VH_POOL)
+                        return vh_region_new(cap);
+                best = vh_pool_n++;
+                vh_pool[best] = vh_region_new(cap);
+        }
+        vh_pool_used[best] = 1;
+        return vh_pool[best];
+}
+static void
+vh_region_put(struct vh_region *r)
+{
+        int i;
+        for (i = 0; i < vh_pool_n; i++)
+                if (vh_pool[i].lo == r->lo) {
+                        vh_pool_used[i] = 0;
+                        return;
+                }
+        vh_region_free(r);
+}
+/* canary window directly before p (up to 4 KiB, clipped to the region) */
+static void
+vh_window_fill(struct vh_region *r, unsigned char *p, int v)
+{
+        unsigned char *from = p - 4096 < r->lo ? r->lo : p - 4096;
+        memset(from, v, p - from);
+}
+static int
+vh_window_intact(struct vh_region *r, unsigned char *p, int v)
+{
+        unsigned char *q = p - 4096 < r->lo ? r->lo : p - 4096;
+        for (; q < p; q++)
+                if (*q != (unsigned char) v)
+                        return 0;
+        return 1;
+}
+
 enum { VH_END = 0, VH_START = 1, VH_MID = 2 };
 #define VH_CANARY 0xA5
 
